@@ -164,13 +164,70 @@ const (
 func c09Setup(queueLen int, writeTimeout time.Duration) (*ServantProxy, *AdapterProxy) {
 	comm := &Communicator{Client: &clientConfig{ObjQueueMax: 100, ClientReadTimeout: 100 * time.Millisecond}, app: &application{allFilters: &filters{}}}
 	pt := &endpointf.EndpointF{Host: "10.0.0.9", Port: 9, Istcp: 0}
-	conf := &transport.TarsClientConf{Proto: "udp", QueueLen: queueLen, ReadTimeout: 0, WriteTimeout: writeTimeout, DialTimeout: c09DialTimeout, IdleTimeout: time.Hour}
+	conf := &transport.TarsClientConf{Proto: "udp", QueueLen: queueLen, ReadTimeout: 100 * time.Millisecond, WriteTimeout: writeTimeout, DialTimeout: c09DialTimeout, IdleTimeout: time.Hour}
 	adp := &AdapterProxy{point: pt, conf: conf, comm: comm, status: true}
 	adp.tarsClient = transport.NewTarsClient("10.0.0.9:9", adp, conf)
 	s := &ServantProxy{name: "obj", comm: comm, proto: &protocol.TarsProtocol{}, timeout: int(c09CallTimeout / time.Millisecond), version: 1}
 	s.manager = &c09Mgr{adp}
 	adp.servantProxy = s
 	return s, adp
+}
+
+// native replay of VerifC09Single: a real loopback TCP server with the same peer behaviours
+func c09NativeServer() (addr string) {
+	ln, err := net.Listen("tcp", "127.0.0.1:0")
+	if err != nil {
+		panic(err)
+	}
+	addr = ln.Addr().String()
+	if c09Mode == c09Refuse {
+		ln.Close() // nothing listens there any more: the dial is refused
+		return
+	}
+	go func() {
+		for {
+			c, err := ln.Accept()
+			if err != nil {
+				return
+			}
+			go func(c net.Conn) {
+				var buf []byte
+				tmp := make([]byte, 4096)
+				for {
+					n, err := c.Read(tmp)
+					if err != nil {
+						return
+					}
+					buf = append(buf, tmp[:n]...)
+					for len(buf) >= 4 {
+						l := int(buf[0])<<24 | int(buf[1])<<16 | int(buf[2])<<8 | int(buf[3])
+						if l < 4 || len(buf) < l {
+							break
+						}
+						var p requestf.RequestPacket
+						_ = p.ReadFrom(codec.NewReader(buf[4:l]))
+						buf = buf[l:]
+						switch c09Mode {
+						case c09Prompt:
+							c.Write(c08Reply(p.IRequestId, int8(p.IRequestId)))
+						case c09Late:
+							go func(id int32) {
+								time.Sleep(150 * time.Millisecond)
+								c.Write(c08Reply(id, int8(id)))
+							}(p.IRequestId)
+						case c09Silent:
+						case c09Close:
+							c.Close()
+							return
+						case c09Garbage:
+							c.Write([]byte{0x7f, 0xff, 0xff, 0xff, 1, 2, 3})
+						}
+					}
+				}
+			}(c)
+		}
+	}()
+	return
 }
 
 var c09T0 = time.Now()
@@ -230,6 +287,10 @@ func VerifC09Single() {
 	c09DialCost = time.Duration(vapi.Choice("dialcost", 2)) * 30 * time.Millisecond
 	c09Dials = 0
 	s, adp := c09Setup(2, 50*time.Millisecond)
+	if !vapi.Engine() {
+		adp.conf.Proto = "tcp"
+		adp.tarsClient = transport.NewTarsClient(c09NativeServer(), adp, adp.conf)
+	}
 	var c1 c09Call
 	c09Invoke(s, &c1)
 	c09Check(s, adp, &c1)
@@ -301,4 +362,63 @@ func VerifC09Stall() {
 		c09Check(s, adp, &calls[i])
 	}
 	vapi.Reach("c09-stall")
+}
+
+// VerifC09Invoke: the effective deadline as derived by TarsInvoke itself (the caller's context
+// deadline if it has one, otherwise the per-call timeout, otherwise the configured timeout),
+// against a server that never answers: the call fails no later than that deadline plus the dial
+// bound, and nothing is left behind. Client filters of every kind that pass the call through
+// must not change that.
+func VerifC09Invoke() {
+	msgID = 10
+	c09Mode = c09Silent
+	c09DialCost = 0
+	s, adp := c09Setup(2, 50*time.Millisecond)
+	if !vapi.Engine() {
+		adp.conf.Proto = "tcp"
+		adp.tarsClient = transport.NewTarsClient(c09NativeServer(), adp, adp.conf)
+	}
+	cfgs := []int{50, 100, 200}
+	eff := cfgs[vapi.Choice("configured", 3)]
+	s.timeout = eff
+	ctx := current.ContextWithClientCurrent(context.Background())
+	if vapi.Bool("percall") {
+		pcs := []int{30, 150}
+		eff = pcs[vapi.Choice("pc", 2)]
+		current.SetClientTimeout(ctx, eff)
+	}
+	if vapi.Bool("ctxdeadline") {
+		dls := []int{60, 250}
+		eff = dls[vapi.Choice("dl", 2)]
+		var cancel context.CancelFunc
+		ctx, cancel = context.WithTimeout(ctx, time.Duration(eff)*time.Millisecond)
+		defer cancel()
+	}
+	switch vapi.Choice("filter", 3) {
+	case 1:
+		s.comm.app.allFilters.registerClientFilter(func(ctx context.Context, msg *Message, invoke Invoke, timeout time.Duration) error {
+			return invoke(ctx, msg, timeout)
+		})
+	case 2:
+		s.comm.app.allFilters.UseClientFilterMiddleware(func(next ClientFilter) ClientFilter {
+			return func(ctx context.Context, msg *Message, invoke Invoke, timeout time.Duration) error {
+				return next(ctx, msg, invoke, timeout)
+			}
+		})
+	}
+	resp := new(requestf.ResponsePacket)
+	t0 := c09Now()
+	err := s.TarsInvoke(ctx, 0, "f", nil, nil, nil, resp)
+	took := time.Duration(c09Now() - t0)
+	slack := c09Slack
+	if !vapi.Engine() {
+		slack = 400 * time.Millisecond
+	}
+	vapi.Check(err != nil, "a call to a silent server fails")
+	vapi.Check(took <= time.Duration(eff)*time.Millisecond+c09DialTimeout+slack, "the call returns no later than its effective deadline plus the dial bound")
+	vapi.Check(atomic.LoadInt32(&s.queueLen) == 0, "the in-flight counter is back to zero")
+	n := 0
+	adp.resp.Range(func(k, v interface{}) bool { n++; return true })
+	vapi.Check(n == 0, "the pending-reply table is back to its previous content")
+	vapi.Reach("c09-invoke")
 }
